@@ -15,11 +15,16 @@
 From Boltons Require Import Lib.Prelude.
 Local Open Scope Z_scope.
 
+(* the default handed to pop/peek is any object: possibly one that is (or was, or
+   will be) queued as a task - then what comes back on an empty queue IS that task
+   object - or something that is never a task *)
+Inductive dflt := DTask (t : K) | DOther (d : nat).
+
 Inductive pq_op :=
 | Add (t : K) (p : option Z)      (* add(task, priority); priority None counts as 0 *)
 | Remove (t : K)
-| Pop (d : option nat)            (* pop() / pop(default=d) *)
-| Peek (d : option nat)           (* peek() / peek(default=d) *)
+| Pop (d : option dflt)           (* pop() / pop(default=d) *)
+| Peek (d : option dflt)          (* peek() / peek(default=d) *)
 | Len.
 
 Inductive pq_obs :=
@@ -46,8 +51,12 @@ Fixpoint best_from (cur : K * Z) (s : spec_state) : K * Z :=
 Definition best (s : spec_state) : option (K * Z) :=
   match s with [] => None | x :: r => Some (best_from x r) end.
 
-Definition on_empty (d : option nat) : pq_obs :=
-  match d with Some v => ODefault v | None => OErr IndexError end.
+Definition on_empty (d : option dflt) : pq_obs :=
+  match d with
+  | Some (DTask t) => OTask t           (* the caller's default happens to be a task object *)
+  | Some (DOther v) => ODefault v
+  | None => OErr IndexError
+  end.
 
 Definition spec_step (s : spec_state) (op : pq_op) : spec_state * pq_obs :=
   match op with
